@@ -1421,6 +1421,12 @@ def corpus() -> list[tuple[str, dict, list]]:
     # ill-typed on purpose: the return check must see through a conditional expression
     body = [('ret', ('if', ('bin', '<', V(1), ('I', 3)), ('S', 'a'), V(1)))]
     out.append(("reject-return-conditional", {'classes': [], 'funcs': [(1, {'params': [(1, INT)], 'ret': INT, 'body': body})]}, []))
+    # break out of a try block whose finally re-assigns the narrowed local
+    body = [('de', 2, OI, ('N',)), ('as', 2, ('I', 1)),
+            ('wh', ('bin', '<', V(1), ('I', 3)), [('as', 1, ('bin', '+', V(1), ('I', 1))), ('fin', [('brk',)], [('as', 2, ('N',))])], []),
+            ('ex', ('rev', V(2))), ('ret', ('bin', '+', V(2), ('I', 1)))]
+    out.append(("break-through-finally", {'classes': [], 'funcs': [(1, {'params': [(1, INT)], 'ret': INT, 'body': body})]},
+                [(1, [['i', 0]]), (1, [['i', 5]])]))
     # directed try / for shapes inside the extended MiniPy (they also go through the model)
     exc0 = {'id': 0, 'bases': [], 'mro': [0], 'fields': [], 'methods': [], 'exc': True}
     e1 = {'id': 1, 'bases': [0], 'mro': [1, 0], 'fields': [], 'methods': [], 'exc': True}
@@ -1609,9 +1615,18 @@ def perturb(p: dict, rng: vlib.Rng) -> tuple[str, dict] | None:
 # ---------------------------------------------------------------------------------------------
 
 FUEL = 600
+UNSUP_REASONS = {
+    "1": "isinstance would drop a union item sharing a subclass with the target (certifying)",
+    "2": "isinstance needs an ad-hoc intersection", "3": "equality narrowing on non-overlapping operands",
+    "4": "partial type / `x = None` widening hack", "5": "name bound only in skipped code",
+    "6": "merge validation failed (certifying)", "7": "loop result is not a fixed point of one more pass (certifying)",
+    "8": "inferred variable re-inferred with a different type on a later pass (certifying)",
+    "9": "for over str / union / tuple whose items need a join", "10": "finally crossed by break/continue (certifying)",
+    "11": "used-before-def pre-pass", "12": "inherited attribute not initialised by __init__"}
 CAP_KEY = "accept_loop-iteration-cap"
 MI_KEY = "isinstance-union-item-dropped-despite-common-subclass"
 FLAG_KEY = "flag-enum-narrowed-as-closed-set-of-named-members"
+FIN_KEY = "break-through-finally-ignores-finally-assignments"
 
 
 def units_of(p: dict) -> list[tuple[str, list[int]]]:
@@ -1673,6 +1688,13 @@ def minipy_stage(ctx: vlib.Ctx, exe: str, progs: list[tuple[str, dict, list]], t
             continue
         accepted_model = parts[2][0] == "1"
         certified = parts[2][1] == "1"
+        why_not: set[str] = set()
+        if accepted_model and not certified:          # why the certifying checker declined (per definition)
+            for x in parts[1].split():
+                if x.startswith("U"):
+                    why_not.add(x[1:])
+                    rs = stats.setdefault("unsup_reasons_certifying", {})
+                    rs[UNSUP_REASONS.get(x[1:], x)] = rs.get(UNSUP_REASONS.get(x[1:], x), 0) + 1
         accepted_mypy = not hard
         any_unsup = False
         clean_defs = set()
@@ -1681,9 +1703,13 @@ def minipy_stage(ctx: vlib.Ctx, exe: str, progs: list[tuple[str, dict, list]], t
             ms = [model_defs[i] for i in idxs]
             lo, hi = defs[idxs[0]][1], defs[idxs[-1]][2]
             uerrs = sorted(ln for ln, _, _ in hard if lo <= ln <= hi)
-            if "U" in ms:
+            if any(x.startswith("U") for x in ms):
                 stats["unsupported_units"] += 1
                 any_unsup = True
+                for x in ms:
+                    if x.startswith("U"):
+                        rs = stats.setdefault("unsup_reasons_plain", {})
+                        rs[UNSUP_REASONS.get(x[1:], x)] = rs.get(UNSUP_REASONS.get(x[1:], x), 0) + 1
                 continue
             mrej = any(x.startswith("R") for x in ms)
             if mrej != bool(uerrs):
@@ -1738,7 +1764,7 @@ def minipy_stage(ctx: vlib.Ctx, exe: str, progs: list[tuple[str, dict, list]], t
             stats["accepted_by_both"] += 1
         elif not accepted_mypy and not accepted_model and not any_unsup:
             stats["rejected_by_both"] += 1
-        info[m] = {"accepted_mypy": accepted_mypy, "accepted_model": accepted_model, "certified": certified, "unreach": unreach,
+        info[m] = {"accepted_mypy": accepted_mypy, "accepted_model": accepted_model, "certified": certified, "why_not": why_not, "unreach": unreach,
                    "static": static_types, "p": p, "name": name, "calls": calls}
         if accepted_mypy and calls:
             run_items.append({"tag": m, "src": mods[m], "calls": [{"fn": f"f{f}", "args": [val_py(v) for v in vs]} for f, vs in calls]})
@@ -1788,9 +1814,10 @@ def minipy_stage(ctx: vlib.Ctx, exe: str, progs: list[tuple[str, dict, list]], t
                 bad = f"line {hit[0]}, reported unreachable by mypy, was executed"
             if bad is not None:
                 cap = inf["accepted_model"] and not inf["certified"]
-                has_loop = "while " in mods[m]
-                key = (CAP_KEY if has_loop else MI_KEY) if cap else f"minipy:{inf['name']}"
-                ctx.violation(key, f"mypy accepts the program but {bad}" + ((" [loop analysis stopped at its iteration cap before a fixed point]" if has_loop else " [isinstance narrowing of a union dropped an item that shares a subclass with the tested class]") if cap else ""),
+                has_loop = "7" in inf["why_not"]
+                fin = "10" in inf["why_not"]
+                key = (FIN_KEY if fin else CAP_KEY if has_loop else MI_KEY) if cap else f"minipy:{inf['name']}"
+                ctx.violation(key, f"mypy accepts the program but {bad}" + ((" [break/continue leaves a try block whose finally assigns: the binder's break snapshot ignores the finally block]" if fin else " [loop analysis stopped at its iteration cap before a fixed point]" if has_loop else " [isinstance narrowing of a union dropped an item that shares a subclass with the tested class]") if cap else ""),
                               {"kind": "minipy", "name": inf["name"], "src": mods[m], "call": item["calls"][j], "outcome": r,
                                "prog": strip_private(inf["p"]), "calls": inf["calls"]})
                 if not cap and inf["accepted_model"] and inf["certified"]:
